@@ -283,7 +283,7 @@ SOLVER_CLASSES = {
     "SolverCacheless": lambda **kw: claripy.SolverCacheless(**kw),
     "SolverStrings": lambda **kw: claripy.SolverStrings(**kw),
     "SolverComposite": lambda **kw: claripy.SolverComposite(**kw),
-    "SolverReplacement": lambda **kw: claripy.SolverReplacement(**kw),
+    "SolverReplacement": lambda **kw: claripy.SolverReplacement(**{k: v for k, v in kw.items() if k != "track"}),
     "SolverHybrid": lambda **kw: claripy.SolverHybrid(**kw),
 }
 
@@ -656,3 +656,46 @@ def signature(prop, cls, cfg, hist, idx, kind):
     if cfg.get("reuse"):
         preds.append("reuse")
     return "%s/%s/%s/%s[%s]" % (prop, cls, d["op"], kind, ",".join(preds))
+
+
+# ----------------------------------------------------------------------------------------------- C14: projection
+def lineage(hist):
+    """solver index -> (parent index or None, index of the branch call that created it)"""
+    par, nxt = {0: (None, -1)}, 1
+    for k, d in enumerate(hist):
+        if d["op"] == "branch" and d["s"] in par:
+            par[nxt] = (d["s"], k)
+            nxt += 1
+    return par
+
+
+def project(hist, k):
+    """The history as solver `hist[k]['s']` would see it if it ran alone: calls on its ancestors up to the branch
+    that leads to it, the branches of that chain, its own calls up to k.  Returns (projected history, index of call k)."""
+    par = lineage(hist)
+    i = hist[k]["s"]
+    chain, cut = [], {}
+    j, limit = i, k
+    while j is not None:
+        chain.append(j)
+        cut[j] = limit            # calls on j count only up to index `limit`
+        p, at = par[j]
+        j, limit = p, at
+    chain = chain[::-1]           # root ... i
+    newidx = {j: n for n, j in enumerate(chain)}
+    out, pos = [], None
+    for q, d in enumerate(hist[:k + 1]):
+        j = d["s"]
+        if j not in cut or q > cut[j]:
+            continue
+        if d["op"] == "branch":
+            # keep only the branch that creates the next solver of the chain
+            child = next((c for c in chain if par[c] == (j, q)), None)
+            if child is None:
+                continue
+        d2 = dict(d)
+        d2["s"] = newidx[j]
+        out.append(d2)
+        if q == k:
+            pos = len(out) - 1
+    return out, pos
